@@ -144,6 +144,43 @@ theorem positionPlay_order_dependent :
     (positionPlayOrd (fun l => l.rotateLeft 3) afterE4 false .white).bind bits32 = some 0x41666667 := by
   decide +kernel
 
+/-! ## 2c. Observation: the `uint8` rank subtraction wraps on a pawn standing on its own back rank -/
+
+/-- **obs_pawnRanks_wrap.** `int(from.Rank() - board.Rank2)` / `int(board.Rank7 - from.Rank())` are computed in `uint8`:
+a white pawn on rank 1 (a1 = square 7) and a black pawn on rank 8 (a8 = 63) get 255 "ranks advanced"; on ranks 2-7 the
+value is the number of ranks advanced, 0 … 5; a pawn on its promotion rank gets 6. -/
+theorem obs_pawnRanks_wrap :
+    pawnRanks .white 7 = 255 ∧ pawnRanks .black 63 = 255 ∧
+    (∀ sq, sq < 64 → 8 ≤ sq → sq < 56 → pawnRanks .white sq = sq / 8 - 1 ∧ pawnRanks .black sq = 6 - sq / 8) ∧
+    (∀ sq, sq < 64 → 56 ≤ sq → pawnRanks .white sq = 6) ∧ (∀ sq, sq < 8 → pawnRanks .black sq = 6) := by
+  decide +kernel
+
+/-- `p3k3/8/8/8/8/8/8/P3K3`: kings on e1/e8, a white pawn on a1, a black pawn on a8 (accepted by `fen.Decode`) -/
+def backRankPos : Position :=
+  (Position.newPosition [(3, .white, .king), (7, .white, .pawn), (59, .black, .king), (63, .black, .pawn)] 0 0).getD {}
+/-- the same with the pawns on a2/a7 -/
+def homeRankPos : Position :=
+  (Position.newPosition [(3, .white, .king), (15, .white, .pawn), (59, .black, .king), (55, .black, .pawn)] 0 0).getD {}
+
+/-- **obs_backRank_positionPlay.** On `backRankPos` the pawn earns `0.2 · 255 = 51` pawns: `PositionPlay(White)` is
+the float32 `0x4242cccd` = 48.7 (the real code returns the same bits: stream `turochamp`, curated case), against
+`0xc0199999` = -2.4 with the pawn on a2. -/
+theorem obs_backRank_positionPlay :
+    (positionPlayCore backRankPos false .white).bind bits32 = some 0x4242cccd ∧
+    (positionPlayCore backRankPos false .black).bind bits32 = some 0x4242cccd ∧
+    (positionPlayCore homeRankPos false .white).bind bits32 = some 0xc0199999 := by decide +kernel
+
+/-- **obs_enpassant_for_side_not_to_move.** `PositionPlay(b, turn.Opponent())` generates moves for the side NOT to move
+with the en-passant target of the side to move still set: after 1. e4 (target e3 = square 19, Black to move) the generator
+gives White the "en-passant captures" f2xe3 and d2xe3, and `Position.Move` accepts both (it removes a phantom black pawn
+from e4, where White's own pawn stands). They are pawn moves, so they do not count for mobility; they do take part in the
+mate-threat test. The real code does the same (stream `turochamp`: `nmoves=20/32 ep=0/2` on this line). -/
+theorem obs_enpassant_for_side_not_to_move :
+    afterE4.enpassant = 19 ∧
+    ((afterE4.pseudoLegalMoves .white).filter fun m => m.ty == .enPassant).map
+      (fun m => (m.from, m.to, (afterE4.move m).isSome)) = [(10, 19, true), (12, 19, true)] ∧
+    (afterE4.legalMoves .white).length = 32 := by decide +kernel
+
 /-! ## 3. The considerable-moves filter -/
 
 /-- **considerable_sound.** The moves a search with `ConsiderableMovesOnly` explores at a node are a sublist of the
